@@ -177,7 +177,7 @@ func (e *Engine) VerifyFunc(fc *FuncContract) *FuncResult {
 	for _, b := range fn.Blocks {
 		res.NInstr += len(b.Instrs)
 	}
-	ctx := &vcCtx{e: e, fnKey: res.Key, noOverflow: fc.NoOverflow != "", wrapSigned: fc.Wraparound != ""}
+	ctx := &vcCtx{e: e, fnKey: res.Key, noOverflow: fc.NoOverflow != "", wrapSigned: fc.Wraparound != "", fuel: fc.Fuel}
 	fr := &frame{e: e, c: ctx, fn: fn, pkg: e.PkgOf[fc], vals: map[ssa.Value]*Val{}, st: newState(), reach: TTrue, fc: fc, top: true,
 		inline: map[string]bool{}}
 	for _, n := range fc.Inline {
@@ -194,6 +194,7 @@ func (e *Engine) VerifyFunc(fc *FuncContract) *FuncResult {
 			fnT := Const("param!"+p.Name(), SFn)
 			v := &Val{T: fnT, Clo: &Closure{Param: p.Name(), T: fnT}, Typ: p.Type()}
 			fr.vals[p] = v
+			fr.symCells()["fn:"+fnT.String()] = v
 			params = append(params, v)
 			continue
 		}
@@ -237,7 +238,7 @@ func (e *Engine) VerifyFunc(fc *FuncContract) *FuncResult {
 }
 
 func (e *Engine) verifyLemma(l *FuncContract, res *FuncResult) *FuncResult {
-	ctx := &vcCtx{e: e, fnKey: e.PkgOf[l].Pkg.Name() + ".lemma." + l.Name}
+	ctx := &vcCtx{e: e, fnKey: e.PkgOf[l].Pkg.Name() + ".lemma." + l.Name, fuel: l.Fuel}
 	res.Key = ctx.fnKey
 	fr := &frame{e: e, c: ctx, pkg: e.PkgOf[l], vals: map[ssa.Value]*Val{}, pure: true, st: newState(), reach: TTrue, prefix: "lemma!"}
 	if len(l.Ensures) == 0 {
@@ -292,7 +293,7 @@ func (e *Engine) verifyLemma(l *FuncContract, res *FuncResult) *FuncResult {
 			return res
 		}
 		ctx.obls = append(ctx.obls, &Obligation{Name: ctx.fnKey + "/lemma-assert:" + c.Label, Class: "lemma", Func: ctx.fnKey,
-			Pos: e.Fset.Position(cfn.Pos()), NFacts: len(ctx.facts), Goal: t, ctx: ctx})
+			Pos: e.Fset.Position(cfn.Pos()), NFacts: len(ctx.facts), Goal: t, ctx: ctx, Fuel: l.Fuel})
 		ctx.assume(t)
 	}
 	for _, c := range l.Ensures {
@@ -302,7 +303,7 @@ func (e *Engine) verifyLemma(l *FuncContract, res *FuncResult) *FuncResult {
 			return res
 		}
 		ctx.obls = append(ctx.obls, &Obligation{Name: ctx.fnKey + "/lemma:" + c.Label, Class: "lemma", Func: ctx.fnKey,
-			Pos: e.Fset.Position(cfn.Pos()), NFacts: len(ctx.facts), Goal: t, ctx: ctx})
+			Pos: e.Fset.Position(cfn.Pos()), NFacts: len(ctx.facts), Goal: t, ctx: ctx, Fuel: l.Fuel})
 	}
 	res.Obligations = ctx.obls
 	return res
